@@ -14,7 +14,10 @@ THEOREMS = [
     "Canopen.C13.flipped_data_byte_errors",
     "Canopen.C13.flipped_data_bit_errors",
     "Canopen.C13.crc_only_if_requested",
+    "Canopen.C13.loss_never_returns_different_data",
+    "Canopen.C13.single_loss_repaired",
     "Canopen.C13.never_returns_different_data_partial",
+    "Canopen.C13.crc_collision_counterexample",
     "Canopen.C13.crc_blind_counterexample",
 ]
 FINGERPRINT = [
@@ -83,7 +86,16 @@ def run_bul(p):
         with rig.client.open(p["idx"], p["sub"], "rb", buffering=p["buf"], block_transfer=True,
                              request_crc_support=p["crcreq"]) as fp:
             size = getattr(fp, "raw", fp).size
-            got = fp.read()
+            if p["buf"] in CHUNKED_BUFS:
+                # the caller reads in pieces through BufferedReader(buf): read(buf - 2) until nothing comes
+                got = b""
+                while True:
+                    d = fp.read(max(1, p["buf"] - 2))
+                    if not d:
+                        break
+                    got += d
+            else:
+                got = fp.read()
         res = "ok " + hx(got)
     except Exception:
         res = "err none"
@@ -168,6 +180,20 @@ def oracle(op, out):
     if p["endb0"] is not None and (p["endb0"] & 0xE0 != 0xC0 or p["endb0"] & 3 != 1) and not p["loss"] \
             and not p["flips"] and res == "ok":
         return f"wrong end frame (first byte {p['endb0']:#04x}) accepted"
+    if kinds == ["loss"]:
+        # frames are lost, none altered: with or without CRC the client re-synchronises (it acknowledges what it
+        # has, the server repeats the rest numbering from 1) — C13 loss_never_returns_different_data,
+        # single_loss_repaired
+        if res == "ok" and got != hx(value):
+            return (f"frames were lost, none altered, and the upload returned data that differs from the server's "
+                    f"value [loss-wrong-data] lost={sorted(p['loss'])}")
+        nseg = (len(value) + 6) // 7
+        if len(p["loss"]) == 1 and 1 <= min(p["loss"]) <= nseg:
+            if res != "ok":
+                return f"a single lost segment (frame {min(p['loss'])}) was not repaired [single-loss-not-repaired]"
+            if confirmed != "1" or ill != "-":
+                return (f"a single lost segment (frame {min(p['loss'])}) was repaired but the transfer was not closed "
+                        f"cleanly (confirmed={confirmed} illegal={ill}) [single-loss-not-repaired]")
     if negotiated and "initflip" not in kinds:
         if kinds == ["badcrc"] and res == "ok":
             return "wrong checksum accepted"
@@ -190,6 +216,10 @@ def signature(op, what):
         return "bul:crc-collision:single-data-flip"
     if "[crc-ignored]" in what:
         return "bul:crc-ignored"
+    if "[loss-wrong-data]" in what:
+        return "bul:loss-wrong-data"
+    if "[single-loss-not-repaired]" in what:
+        return "bul:single-loss-not-repaired"
     if what.startswith("undisturbed"):
         return "bul:undisturbed"
     if "wrong checksum" in what:
@@ -238,7 +268,8 @@ def shrink_candidates(op):
 
 
 # ---- generator ----------------------------------------------------------------------------------------
-BUFS = [0, 1024, 7, 1]
+CHUNKED_BUFS = (2, 3, 5, 9, 13)
+BUFS = [2, 3, 5, 9, 13, 0, 1024, 7, 1]
 MUXES = [(0x2000, 1), (0x1F50, 0), (0xFFFF, 255), (0, 0), (0x1234, 0x56)]
 CRCS = [(1, 1), (0, 1), (1, 0), (0, 0)]
 
@@ -288,8 +319,7 @@ def gen_ops(tier, rng):
     for n in singles:
         for g in range(0, nseg(n) + 2 + (n > 889)):
             yield mk(n, loss=[g], crc=(1, 1))
-            if g % 3 == 0:
-                yield mk(n, loss=[g], crc=(0, 0))
+            yield mk(n, loss=[g], crc=(0, 0) if g % 3 else CRCS[1 + g // 3 % 3])
             yield mk(n, loss=[g], crc=(1, 1), data=f"z{n}")
     for n in ([889 * 2 + 1] if not thorough else [889 * 3 + 6, 10000]):
         ns = nseg(n)
@@ -336,7 +366,9 @@ CORPUS = [
     "bul 8192 1 h0102030405060708090a0b0c0d0e0f101112131415161718191a1b1c1d1e 1 1 1 - - 0 - 0",
     "bul 8192 1 h0102030405060708090a0b0c0d0e0f101112131415161718191a1b1c1d1e 1 1 1 1 - 0 - 1024",
     "bul 8192 1 h0102030405060708090a0b0c0d0e0f101112131415161718191a1b1c1d1e 1 1 1 2 - 0 - 0",
-    "bul 8192 1 z1778 1 1 1 5 - 0 - 0",      # lost segment + all-zero value: returned short, CRC cannot see it
+    "bul 8192 1 z1778 1 1 1 5 - 0 - 0",      # lost segment + all-zero value (returned short before the resync repair)
+    "bul 8192 1 z57 0 0 1 5 - 0 - 0",        # lost segment, no CRC: repaired
+    "bul 8192 1 z29 1 1 1 - 6:2 0 - 0",      # byte-count field of the end response corrupted, all-zero value
 ]
 
 LEVEL_TEXT = ("Lean 4 theorems about the model of BlockUploadStream: against the conformant block-upload server, for every "
@@ -346,12 +378,17 @@ LEVEL_TEXT = ("Lean 4 theorems about the model of BlockUploadStream: against the
               "nothing; a wrong announced CRC (negotiated) or a wrong end frame ends in an error; against EVERY peer "
               "and EVERY loss/corruption pattern: a normal return implies CRC-16(returned) = checksum read from the end "
               "response, hence a value differing from the server's in a single byte (any single flipped bit) is never "
-              "returned; closed counterexample for the stronger 'never returns different data' clause (open finding); "
+              "returned; whatever frames are LOST (none altered) a normal return yields exactly the server's value, CRC "
+              "or not, and a single lost segment at any position is repaired (repaired re-synchronisation); closed "
+              "counterexamples for the stronger 'never returns different data under corruption' clause (a 16-bit "
+              "collision; the unchecked length, open finding); "
               "model tied to the code by generated constants and a differential run over whole transfers incl. every "
               "single lost frame and every single flipped bit of selected transfers")
 LEVEL_NOTE = ("trusted: Lean kernel + propext/Classical.choice/Quot.sound; the reference server specification (written "
               "twice); queue/time-out/readall abstractions named in the trusted base; the property's clause 'never "
-              "returns data that differs' is FALSE of the code (known finding bul:crc-collision, counterexample "
-              "theorem crc_blind_counterexample) and only its CRC-strength version is proved; termination of the read "
-              "loop under arbitrary disturbance is not proved (explicit fuel, Res.fuel distinct)")
+              "returns data that differs' is proved for loss (any pattern, with or without CRC) and is FALSE for "
+              "corruption (inherent 16-bit collisions: crc_collision_counterexample; unchecked length on CRC-blind "
+              "values: known finding bul:crc-collision, crc_blind_counterexample), where only its CRC-strength version "
+              "is proved; late / duplicated segments are exercised by C07 (bdist ops), not proved here; termination "
+              "of the read loop under arbitrary disturbance is not proved (explicit fuel, Res.fuel distinct)")
 TECHNIQUE = "Lean 4 proof over generated tables + differential correspondence with the implementation"
